@@ -205,6 +205,7 @@ def robustness_grid(da, rng: random.Random, tier_: str, out: Outcome) -> list[di
     # fixed hostile vectors seen to matter + stream classes with plain requests
     fixed = [(cls, '', 'plain') for cls in route_classes]
     fixed += [('manifest-live', 'drm', 'all-noenc'), ('tears-manifest', 'drm', 'all-noenc'), ('tears-media', 'drm', 'all-noenc'),
+              ('manifest-live', 'drm', 'all-badloc'), ('media-enc', 'drm', 'all-badloc'), ('init-enc', 'drm', 'all-badloc'), ('mps-manifest', 'drm', 'all-badloc'),
               ('manifest-live', 'mup', 'zero-patch'), ('media-num', 'ping__interval', 'zero'), ('media-num', 'scte35__interval', 'zero'),
               ('media-vod', 'ping__count', 'huge'), ('manifest-live', 'ping__timescale', 'zero'), ('media-vod', 'ping__interval', 'zero'),
               ('media-vod', 'ping__interval', 'negative'), ('manifest-vod', 'ping__interval', 'zero')]
@@ -260,6 +261,8 @@ def robustness_grid(da, rng: random.Random, tier_: str, out: Outcome) -> list[di
             q = 'drm=all'
         elif vc == 'zero-patch':
             q = 'mup=0&patch=1&timeline=1'
+        elif vc == 'all-badloc':
+            q = 'drm=all-xyz'          # a known selector with an unknown location
         elif name.startswith(('ping__', 'scte35__')):
             ev = name.split('__')[0]
             val = VALUE_CLASSES.get(vc)
